@@ -611,6 +611,11 @@ type HEIFOpts struct {
 	// InfeVersions != 0: the further entries are written in item-info versions 3, 1 and 0 as well
 	// (chosen per entry from this value); 0: all of them in version 2
 	InfeVersions uint64
+	// Iref: meta also holds an item-reference box (cdsc / thmb references, as HEIF files have)
+	Iref bool
+	// IrefBad (with Iref): the iref box declares more than meta has left and its first child more
+	// than iref declares - a malformed variant in which error handling decides what is read next
+	IrefBad bool
 	// IlocLastCut > 0: the item-location box is the last child of meta and its last bytes are
 	// missing (the box, and meta with it, ends that many bytes early - inside its last entry)
 	IlocLastCut int
@@ -694,6 +699,14 @@ func DrawHEIFOpts(l *core.Lane, tiff []byte, surround bool, ho HEIFOpts) *HEIF {
 	for i := 0; i < ho.ExtraIloc; i++ {
 		extra = append(extra, mkIloc(0, 0, 0, 0)...)
 	}
+	var iref []byte // in front of iloc and iinf: what goes wrong inside it can hide them
+	if ho.Iref {
+		iref = fullBox("iref", 0, 0, Box("cdsc", be16(2), be16(1), be16(1)), Box("thmb", be16(3), be16(1), be16(1)))
+		if ho.IrefBad {
+			// a bare child header that declares 16 MiB, and nothing else
+			iref = fullBox("iref", 0, 0, be32(0x00ffffff), []byte("dimg"))
+		}
+	}
 	mkMeta := func(iloc []byte) []byte {
 		if ho.IlocLastCut > 0 {
 			cut := ho.IlocLastCut
@@ -702,9 +715,9 @@ func DrawHEIFOpts(l *core.Lane, tiff []byte, surround bool, ho HEIFOpts) *HEIF {
 			}
 			iloc = append([]byte(nil), iloc[:len(iloc)-cut]...)
 			binary.BigEndian.PutUint32(iloc, uint32(len(iloc)))
-			return fullBox("meta", 0, 0, hdlr, pitm, iinf, iprp, extra, iloc)
+			return fullBox("meta", 0, 0, hdlr, pitm, iref, iinf, iprp, extra, iloc)
 		}
-		return fullBox("meta", 0, 0, hdlr, pitm, iloc, iinf, iprp, extra)
+		return fullBox("meta", 0, 0, hdlr, pitm, iref, iloc, iinf, iprp, extra)
 	}
 	metaLen := len(mkMeta(mkIloc(0, 0, 0, 0)))
 	var pre []byte
@@ -747,8 +760,16 @@ func DrawHEIFOpts(l *core.Lane, tiff []byte, surround bool, ho HEIFOpts) *HEIF {
 			h.Map = append(h.Map, FieldSpan{"iinf.size", i, 4}, FieldSpan{"iinf.count", i + 12, 2})
 		case "infe":
 			h.Map = append(h.Map, FieldSpan{"infe.size", i, 4})
-		case "ipma", "ipco", "iprp", "pitm", "hdlr", "ispe":
+		case "ipma", "ipco", "iprp", "pitm", "hdlr", "ispe", "iref", "cdsc", "thmb":
 			h.Map = append(h.Map, FieldSpan{string(out[i+4:i+8]) + ".size", i, 4})
+		}
+	}
+	if ho.Iref && ho.IrefBad {
+		for i := len(ftyp); i+16 < len(ftyp)+len(meta); i++ {
+			if string(out[i+4:i+8]) == "iref" {
+				binary.BigEndian.PutUint32(out[i:], uint32(len(meta)+1000))
+				break
+			}
 		}
 	}
 	h.Map = append(h.Map, FieldSpan{"end:exifitem", exifOff + len(item), 0})
@@ -1047,4 +1068,28 @@ func ManyTiny(kind, sub, n, junk int) []byte {
 		}
 		return append(out, "</rdf:RDF></x:xmpmeta>"...)
 	}
+}
+
+// AVIFIrefOverstated builds an AVIF-branded file (ftyp, meta{iref, iinf, iloc}, mdat with the Exif
+// item) whose iref box declares over bytes more than it holds and holds nothing but a child
+// header that declares 16 MiB: a malformed tree in which what is read next depends on how the
+// failure to close that child is handled. tiff is the Exif payload.
+func AVIFIrefOverstated(tiff []byte, over int) []byte {
+	ftyp := Box("ftyp", []byte("avif"), be32(0), []byte("avif"), []byte("mif1"))
+	iinf := Box("iinf", be32(0), be16(1), Box("infe", be32(2<<24), be16(1), be16(0), []byte("Exif"), []byte{0}))
+	item := append(be32(6), "Exif\x00\x00"...)
+	item = append(item, tiff...)
+	build := func(exifOffset uint32) ([]byte, int) {
+		iloc := Box("iloc", be32(0), []byte{0x44, 0x00}, be16(1), be16(1), be16(0), be16(1), be32(exifOffset), be32(uint32(len(item)+8+24)))
+		irefPayload := append(be32(0), append(be32(0x00ffffff), "dimg"...)...)
+		iref := append(be32(uint32(8+len(irefPayload)+len(iinf)+len(iloc)+over)), "iref"...)
+		iref = append(iref, irefPayload...)
+		meta := Box("meta", be32(0), iref, iinf, iloc)
+		file := append(append([]byte(nil), ftyp...), meta...)
+		start := len(file)
+		return append(file, Box("mdat", make([]byte, 8), item, make([]byte, 64))...), start
+	}
+	_, start := build(0)
+	f, _ := build(uint32(start + 16))
+	return f
 }
